@@ -690,18 +690,32 @@ class World:
         if not hasattr(self, "_rule_fields"):
             self._rule_fields = {}
             ci = self.prog.classes.get(RULE_Q)
-            for m in (list(ci.methods.values()) if ci else []):
-                if not m.bound or m.kind == "class":
-                    continue
-                ft = self.types(m)
-                sname = m.params[0] if m.params else "self"
-                for n in ast.walk(m.node):
-                    if isinstance(n, ast.Assign):
-                        for t in n.targets:
-                            if isinstance(t, ast.Attribute) and isinstance(t.value, ast.Name) and t.value.id == sname:
-                                vt = ft.type_of(n.value)
-                                if vt is not None:
-                                    self._rule_fields[t.attr] = tjoin(self._rule_fields.get(t.attr), vt)
+            # the field types and the methods' local types depend on each other (a constructor that derives one field from
+            # another): iterate, dropping every function typing that was inferred while the field table was still incomplete
+            for _round in range(4):
+                before = set(self._ft)
+                fields = {}
+                for m in (list(ci.methods.values()) if ci else []):
+                    if not m.bound or m.kind == "class":
+                        continue
+                    self._ft.pop(m.qname, None) if _round else None
+                    ft = self.types(m)
+                    sname = m.params[0] if m.params else "self"
+                    for n in ast.walk(m.node):
+                        if isinstance(n, ast.Assign):
+                            for t in n.targets:
+                                if isinstance(t, ast.Attribute) and isinstance(t.value, ast.Name) and t.value.id == sname:
+                                    vt = ft.type_of(n.value)
+                                    if vt is not None:
+                                        fields[t.attr] = tjoin(fields.get(t.attr), vt)
+                stable = fields == self._rule_fields
+                self._rule_fields = fields
+                for q in set(self._ft) - before:
+                    self._ft.pop(q, None)
+                for m in (list(ci.methods.values()) if ci else []):
+                    self._ft.pop(m.qname, None)
+                if stable:
+                    break
         t = self._rule_fields.get(attr)
         if t is not None:
             return t
